@@ -1,6 +1,8 @@
 package statedb
 
 import (
+	"iter"
+
 	"github.com/cilium/statedb/index"
 	"github.com/cilium/statedb/internal/vnd"
 )
@@ -89,18 +91,100 @@ func (m *dbModel) snapshot() *dbModel {
 	return &dbModel{vals: m.vals.Snapshot(), revs: m.revs.Snapshot(), rev: m.rev}
 }
 
+// pa asserts c under id unless the harness run is focused (param FOCUS) on
+// another property than the one the id belongs to (ids start with "Cnn.").
+func pa(c bool, id string) {
+	if f := vnd.Param("FOCUS", 0); f != 0 {
+		want := "C0" + string(rune('0'+f)) + "."
+		if f >= 10 {
+			want = "C" + string(rune('0'+f/10)) + string(rune('0'+f%10)) + "."
+		}
+		if len(id) < 4 || id[:4] != want {
+			return
+		}
+	}
+	vnd.Assert(c, id)
+}
+
 // checkTable compares the primary-index view of a transaction with the model.
-func checkTable(t Table[*vobj], txn ReadTxn, m *dbModel, q []byte, id string) {
-	vnd.Assert(t.NumObjects(txn) == m.vals.Len(), id+".numobjects")
-	vnd.Assert(t.Revision(txn) == m.rev, id+".revision")
+// Content assertions are filed under C03, revision assertions under C09.
+func checkTable(t Table[*vobj], txn ReadTxn, m *dbModel, q []byte, what string) {
+	pa(t.NumObjects(txn) == m.vals.Len(), "C03."+what+".numobjects")
+	pa(t.Revision(txn) == m.rev, "C09."+what+".revision")
 	o, rev, ok := t.Get(txn, vIDIndex.Query(q))
 	mv, mok := m.vals.Get(q)
 	mr, _ := m.revs.Get(q)
-	vnd.Assert(vnd.Iff(ok, mok), id+".get.found")
+	pa(vnd.Iff(ok, mok), "C03."+what+".get.found")
 	if ok {
-		vnd.Assert(vnd.Implies(mok, vnd.And(o.val == mv, rev == mr)), id+".get.value")
+		pa(vnd.Implies(mok, o.val == mv), "C03."+what+".get.value")
+		pa(vnd.Implies(mok, rev == mr), "C09."+what+".get.revision")
 	}
 	ids, vals, revs := collectObjs(t.All(txn))
-	m.vals.CheckOrdered(ids, vals, vnd.SelAll, id+".all")
-	m.revs.CheckOrdered(ids, revs, vnd.SelAll, id+".all.revs")
+	if f := vnd.Param("FOCUS", 0); f == 0 || f == 3 {
+		m.vals.CheckOrdered(ids, vals, vnd.SelAll, "C03."+what+".all")
+	}
+	if f := vnd.Param("FOCUS", 0); f == 0 || f == 9 {
+		m.revs.CheckOrdered(ids, revs, vnd.SelAll, "C09."+what+".all.revs")
+	}
+}
+
+// LPM index over (pfx, plen); non-unique so that several objects share a prefix.
+var vLPMIndex = LPMIndex[*vobj]{
+	Name: "lpm",
+	FromObject: func(o *vobj) iter.Seq2[[]byte, PrefixLen] {
+		return func(yield func([]byte, PrefixLen) bool) {
+			if o.pfx != nil {
+				yield(o.pfx, o.plen)
+			}
+		}
+	},
+	Unique: false,
+}
+
+// obsItem is one element of an observation: the object (by identity) and the
+// revision reported with it.
+type obsItem struct {
+	obj *vobj
+	rev uint64
+}
+
+type observation struct {
+	lists [][]obsItem
+	nums  []uint64
+}
+
+func (o *observation) addSeq(seq func(yield func(*vobj, Revision) bool)) {
+	var l []obsItem
+	seq(func(ob *vobj, r Revision) bool {
+		l = append(l, obsItem{ob, r})
+		return true
+	})
+	o.lists = append(o.lists, l)
+}
+
+func (o *observation) addGet(ob *vobj, rev uint64, ok bool) {
+	if ok {
+		o.lists = append(o.lists, []obsItem{{ob, rev}})
+	} else {
+		o.lists = append(o.lists, nil)
+	}
+}
+
+// sameObs asserts that two observations are identical (same objects by
+// pointer, same revisions, same order, same counts).
+func sameObs(a, b *observation, id string) {
+	vnd.Assert(len(a.lists) == len(b.lists), id+".shape")
+	for i := range a.lists {
+		if len(a.lists[i]) != len(b.lists[i]) {
+			vnd.Assert(false, id+".length")
+			return
+		}
+		for j := range a.lists[i] {
+			vnd.Assert(a.lists[i][j].obj == b.lists[i][j].obj, id+".object")
+			vnd.Assert(a.lists[i][j].rev == b.lists[i][j].rev, id+".revision")
+		}
+	}
+	for i := range a.nums {
+		vnd.Assert(a.nums[i] == b.nums[i], id+".number")
+	}
 }
